@@ -16,6 +16,7 @@ import (
 	"hash/fnv"
 	"sort"
 	"sync"
+	"time"
 )
 
 // World is the whole simulated process environment of one boot.
@@ -34,6 +35,11 @@ type World struct {
 
 	TickBudget int64
 	Ticks      int64
+	// WallDeadline (unix nanoseconds, 0 = none) is a backstop for loops whose
+	// cost per iteration grows: the step budget stays the deterministic
+	// criterion, but an operation that is still stepping after several real
+	// seconds is cut off as well.
+	WallDeadline int64
 
 	// recorded
 	Exited   bool
@@ -133,6 +139,14 @@ func Tick() {
 		return
 	}
 	W.Ticks++
+	if W.Ticks&4095 == 0 && W.WallDeadline != 0 && time.Now().UnixNano() > W.WallDeadline {
+		t := W.Ticks
+		W.Ticks = 0
+		W.WallDeadline = 0
+		W.TickBudget = 1 << 40
+		W.Event("wall-clock backstop")
+		panic(BudgetPanic{Ticks: t})
+	}
 	if W.Ticks > W.TickBudget {
 		t := W.Ticks
 		W.Ticks = 0 // let deferred code run without re-triggering at once
